@@ -166,8 +166,9 @@ mod v_iface_neighbor {
         assert!(c.lookup(&p, t) == m_lookup(m, &p, t), "prop:c16_cache_and_rate_limit_exactly_as_specified");
         assert!(m.silent <= plus(now, SEC), "inv:nc_silent_until_at_most_1s_ahead");
         let k = any_lt(3);
-        if m.e[k].valid {
-            assert!(m.e[k].exp <= plus(now, 60 * SEC), "inv:nc_expiry_at_most_60s_ahead");
+        let ek = m.e[k]; // copied out (references into a symbolically indexed element confuse CBMC's memcmp model)
+        if ek.valid {
+            assert!(ek.exp <= plus(now, 60 * SEC), "inv:nc_expiry_at_most_60s_ahead");
         }
     }
 
@@ -182,9 +183,17 @@ mod v_iface_neighbor {
         let mut m2 = *m;
         let ne = E { valid: true, ip, hw, exp: plus(now, 60 * SEC) };
         match m_key_index(m, &ip) {
-            Some(i) => m2.e[i] = ne,
+            Some(0) => m2.e[0] = ne,
+            Some(1) => m2.e[1] = ne,
+            Some(_) => m2.e[2] = ne,
             None if m.n < 3 => {
-                m2.e[m.n] = ne;
+                if m.n == 0 {
+                    m2.e[0] = ne;
+                } else if m.n == 1 {
+                    m2.e[1] = ne;
+                } else {
+                    m2.e[2] = ne;
+                }
                 m2.n = m.n + 1;
             }
             None => {
@@ -288,13 +297,12 @@ mod v_iface_neighbor {
     }
 
     // ------------------------------------------------------------------ frame inspection (flat capture buffers)
-    fn eq_at(buf: &[u8; CAP], off: usize, want: &[u8]) -> bool {
+    fn eq_at<const N: usize>(buf: &[u8; CAP], off: usize, want: &[u8; N]) -> bool {
+        // N is 4, 6 or (IPv6 builds only) 16: a concrete bound below the harness's unwind value
         let mut ok = true;
         let mut i = 0;
-        while i < 16 {
-            if i < want.len() {
-                ok = ok && buf[off + i] == want[i];
-            }
+        while i < N {
+            ok = ok && buf[off + i] == want[i];
             i += 1;
         }
         ok
@@ -413,7 +421,7 @@ mod v_iface_neighbor {
     }
 
     // ------------------------------------------------------------------ 3. next hop -> hardware address, one step
-    // @harness props=C16 cfg=KI4,KI6 tier=q to=900 mem=4 unwind=18 opts=nomem covers=7 funcs=InterfaceInner::lookup_hardware_addr;InterfaceInner::dispatch_ip;InterfaceInner::route;InterfaceInner::in_same_network;InterfaceInner::dispatch_ethernet;route::Routes::lookup;neighbor::Cache::lookup;neighbor::Cache::limit_rate bounds=Ethernet_interface_192.168.1.1/24_(IPv6:_fe80::1/64_+_2001:db8::1/64);_neighbor_cache_3_slots_holding_0..=3_entries_(any_unicast_keys,_addresses,_expiries),_any_silent_until;_0..=2_routes_(any_prefix,_gateway,_expiry);_any_unicast_destination_(all_address_bits_symbolic);_any_instant;_UDP_datagram_with_4_payload_bytes;_optional_lookup_hardware_addr_call_followed_by_dispatch_ip_at_the_same_instant
+    // @harness props=C16 cfg=KI4,KI6 tier=q to=900 mem=8 unwind=KI4:8,KI6:18 opts=nomem covers=7 funcs=InterfaceInner::lookup_hardware_addr;InterfaceInner::dispatch_ip;InterfaceInner::route;InterfaceInner::in_same_network;InterfaceInner::dispatch_ethernet;route::Routes::lookup;neighbor::Cache::lookup;neighbor::Cache::limit_rate bounds=Ethernet_interface_192.168.1.1/24_(IPv6:_fe80::1/64_+_2001:db8::1/64);_neighbor_cache_3_slots_holding_0..=3_entries_(any_unicast_keys,_addresses,_expiries),_any_silent_until;_0..=2_routes_(any_prefix,_gateway,_expiry);_any_unicast_destination_(all_address_bits_symbolic);_any_instant;_UDP_datagram_with_4_payload_bytes;_optional_lookup_hardware_addr_call_followed_by_dispatch_ip_at_the_same_instant
     #[kani::proof]
     pub(crate) fn lookup_hw_addr_step() {
         eth_env!(dev, iface, now, false);
@@ -586,7 +594,7 @@ mod v_iface_neighbor {
         o == [192, 168, 1, 255] || o == [10, 255, 255, 255]
     }
 
-    // @harness props=C16 cfg=KI4 tier=q to=900 mem=4 unwind=18 opts=nomem covers=5 funcs=InterfaceInner::process_arp;ArpRepr::parse;neighbor::Cache::fill;InterfaceInner::in_same_network;InterfaceInner::has_ip_addr bounds=Ethernet_interface_with_192.168.1.1/24_and_10.0.0.5/8;_all_28_ARP_bytes_symbolic_(any_hardware/protocol_type,_lengths,_operation,_addresses);_neighbor_cache_3_slots_in_any_state;_any_instant;_sender_=_directed_broadcast_of_an_own_subnet_excluded_(finding_arp_subnet_broadcast_sender)
+    // @harness props=C16 cfg=KI4 tier=q to=900 mem=8 unwind=8 opts=nomem covers=5 funcs=InterfaceInner::process_arp;ArpRepr::parse;neighbor::Cache::fill;InterfaceInner::in_same_network;InterfaceInner::has_ip_addr bounds=Ethernet_interface_with_192.168.1.1/24_and_10.0.0.5/8;_all_28_ARP_bytes_symbolic_(any_hardware/protocol_type,_lengths,_operation,_addresses);_neighbor_cache_3_slots_in_any_state;_any_instant;_sender_=_directed_broadcast_of_an_own_subnet_excluded_(finding_arp_subnet_broadcast_sender)
     #[kani::proof]
     pub(crate) fn cache_fill_only_validated_arp() {
         #[cfg(feature = "proto-ipv4")]
@@ -637,7 +645,7 @@ mod v_iface_neighbor {
     // The directed-broadcast address of an own subnet (192.168.1.255 on 192.168.1.0/24) is not a unicast sender
     // (`InterfaceInner::is_unicast_v4`, used for IPv4 sources in process_ipv4, says so), yet process_arp tests only the
     // address class (`x_is_unicast`) and learns it.  Excluded from cache_fill_only_validated_arp, asserted here.
-    // @harness props=C16 cfg=KI4 kind=finding tier=q to=600 mem=4 unwind=18 opts=nomem covers=2 funcs=InterfaceInner::process_arp;InterfaceInner::is_unicast_v4 bounds=ARP_request/reply_for_192.168.1.1_from_sender_protocol_address_192.168.1.255_or_10.255.255.255,_any_sender_hardware_address;_neighbor_cache_in_any_state
+    // @harness props=C16 cfg=KI4 kind=finding tier=q to=600 mem=8 unwind=8 opts=nomem covers=2 funcs=InterfaceInner::process_arp;InterfaceInner::is_unicast_v4 bounds=ARP_request/reply_for_192.168.1.1_from_sender_protocol_address_192.168.1.255_or_10.255.255.255,_any_sender_hardware_address;_neighbor_cache_in_any_state
     #[kani::proof]
     pub(crate) fn finding_arp_subnet_broadcast_sender() {
         #[cfg(feature = "proto-ipv4")]
@@ -672,7 +680,7 @@ mod v_iface_neighbor {
         }
     }
 
-    // @harness props=C16 cfg=KI6 tier=q to=900 mem=4 unwind=18 opts=nomem covers=6 funcs=InterfaceInner::process_ndisc;RawHardwareAddress::parse;neighbor::Cache::fill;neighbor::Cache::lookup;InterfaceInner::has_solicited_node bounds=Ethernet_interface_fe80::1/64_+_2001:db8::1/64,_SLAAC_off;_symbolic_NdiscRepr_of_every_kind_(NA,_NS,_RS,_RA,_Redirect)_with_any_flags,_any_target,_link-layer_option_absent_or_of_length_0..=6_with_any_bytes;_any_unicast_IPv6_source_(process_ipv6_drops_others),_any_destination;_hop_limit_255_(gate_in_process_icmpv6:_ndisc_hop_limit_gate);_neighbor_cache_3_slots_in_any_state
+    // @harness props=C16 cfg=KI6 tier=q to=900 mem=8 unwind=18 opts=nomem covers=6 funcs=InterfaceInner::process_ndisc;RawHardwareAddress::parse;neighbor::Cache::fill;neighbor::Cache::lookup;InterfaceInner::has_solicited_node bounds=Ethernet_interface_fe80::1/64_+_2001:db8::1/64,_SLAAC_off;_symbolic_NdiscRepr_of_every_kind_(NA,_NS,_RS,_RA,_Redirect)_with_any_flags,_any_target,_link-layer_option_absent_or_of_length_0..=6_with_any_bytes;_any_unicast_IPv6_source_(process_ipv6_drops_others),_any_destination;_hop_limit_255_(gate_in_process_icmpv6:_ndisc_hop_limit_gate);_neighbor_cache_3_slots_in_any_state
     #[kani::proof]
     pub(crate) fn cache_fill_only_validated_ndisc() {
         #[cfg(all(feature = "proto-ipv6", not(feature = "proto-ipv4")))]
@@ -757,7 +765,7 @@ mod v_iface_neighbor {
 
     // The off-link gate: NDISC is honoured only with hop limit 255 (RFC 4861 7.1.1/7.1.2), enforced in process_icmpv6.
     // Byte template (RFC 4861 4.4): neighbor advertisement with a target link-layer address option.
-    // @harness props=C16 cfg=KI6 tier=q to=900 mem=4 unwind=18 opts=nomem covers=2 funcs=InterfaceInner::process_icmpv6;Icmpv6Repr::parse;NdiscRepr::parse;InterfaceInner::process_ndisc bounds=32-byte_neighbor_advertisement_template_(flags,_target,_option_type_1_or_2,_link-layer_address_symbolic);_any_hop_limit;_any_unicast_source;_destination_fe80::1;_empty_neighbor_cache;_no_sockets
+    // @harness props=C16 cfg=KI6 tier=q to=900 mem=8 unwind=18 opts=nomem covers=2 funcs=InterfaceInner::process_icmpv6;Icmpv6Repr::parse;NdiscRepr::parse;InterfaceInner::process_ndisc bounds=32-byte_neighbor_advertisement_template_(flags,_target,_option_type_1_or_2,_link-layer_address_symbolic);_any_hop_limit;_any_unicast_source;_destination_fe80::1;_empty_neighbor_cache;_no_sockets
     #[kani::proof]
     pub(crate) fn ndisc_hop_limit_gate() {
         #[cfg(all(feature = "proto-ipv6", not(feature = "proto-ipv4")))]
@@ -798,7 +806,7 @@ mod v_iface_neighbor {
     }
 
     // ------------------------------------------------------------------ 5. socket data survives an unresolved neighbor
-    // @harness props=C16 cfg=KI4 tier=q to=900 mem=4 unwind=18 opts=nomem covers=4 funcs=Interface::socket_egress;udp::Socket::dispatch;InterfaceInner::dispatch_ip;InterfaceInner::lookup_hardware_addr;InterfaceInner::has_neighbor;socket_meta::Meta::egress_permitted;socket_meta::Meta::neighbor_missing;socket_meta::Meta::poll_at bounds=one_UDP_socket_with_one_queued_4-byte_datagram_to_any_on-link_host_192.168.1.x;_neighbor_cache_3_slots_in_any_state_without_a_live_entry_for_it;_any_silent_until;_device_with_or_without_a_free_transmit_buffer;_second_egress_after_the_address_was_learned
+    // @harness props=C16 cfg=KI4 tier=q to=900 mem=8 unwind=8 opts=nomem covers=4 funcs=Interface::socket_egress;udp::Socket::dispatch;InterfaceInner::dispatch_ip;InterfaceInner::lookup_hardware_addr;InterfaceInner::has_neighbor;socket_meta::Meta::egress_permitted;socket_meta::Meta::neighbor_missing;socket_meta::Meta::poll_at bounds=one_UDP_socket_with_one_queued_4-byte_datagram_to_any_on-link_host_192.168.1.x;_neighbor_cache_3_slots_in_any_state_without_a_live_entry_for_it;_any_silent_until;_device_with_or_without_a_free_transmit_buffer;_second_egress_after_the_address_was_learned
     #[kani::proof]
     pub(crate) fn egress_keeps_data_when_neighbor_unknown() {
         #[cfg(all(feature = "proto-ipv4", feature = "socket-udp"))]
@@ -889,7 +897,7 @@ mod v_iface_neighbor {
         }
     }
 
-    // @harness props=C16 kind=mustfail cfg=KI4 tier=q to=900 mem=4 unwind=18 opts=nomem
+    // @harness props=C16 kind=mustfail cfg=KI4 tier=q to=900 mem=8 unwind=8 opts=nomem
     #[kani::proof]
     pub(crate) fn iface_neighbor_must_fail() {
         eth_env!(dev, iface, now, false);
@@ -900,4 +908,53 @@ mod v_iface_neighbor {
         // false: a miss outside the silent second does send a request
         assert!(st.frames == 0, "prop:deliberately_false_lookup_never_sends");
     }
+
+    // DEBUG-BEGIN
+    fn any_cache_standalone(now: Instant) -> (NeighborCache, Model) {
+        let mut c = NeighborCache::new();
+        let m = any_cache_into(&mut c, now);
+        (c, m)
+    }
+    // @harness props=C16 kind=mustfail cfg=KI4 tier=q to=600 mem=8 unwind=8 opts=nomem
+    #[kani::proof]
+    pub(crate) fn dbg_a() {
+        eth_env!(dev, iface, now, true);
+        assert!(iface.inner.now == now, "dbg:a");
+        assert!(iface.inner.has_ip_addr(IpAddress::Ipv4(OWN4)), "dbg:a2");
+    }
+    // @harness props=C16 kind=mustfail cfg=KI4 tier=q to=600 mem=8 unwind=8 opts=nomem
+    #[kani::proof]
+    pub(crate) fn dbg_b() {
+        eth_env!(dev, iface, now, true);
+        let m = any_cache_into(&mut iface.inner.neighbor_cache, now);
+        assert_cache_is(&iface.inner.neighbor_cache, &m, now);
+    }
+    // @harness props=C16 kind=mustfail cfg=KI4 tier=q to=600 mem=8 unwind=8 opts=nomem
+    #[kani::proof]
+    pub(crate) fn dbg_c() {
+        eth_env!(dev, iface, now, true);
+        let (c, m) = any_cache_standalone(now);
+        iface.inner.neighbor_cache = c;
+        assert_cache_is(&iface.inner.neighbor_cache, &m, now);
+    }
+    // @harness props=C16 kind=mustfail cfg=KI4 tier=q to=600 mem=8 unwind=8 opts=nomem
+    #[kani::proof]
+    pub(crate) fn dbg_d() {
+        #[cfg(feature = "proto-ipv4")]
+        {
+        eth_env!(dev, iface, now, true);
+        let (c, m) = any_cache_standalone(now);
+        iface.inner.neighbor_cache = c;
+        let a = any_arp_frame();
+        kani::assume(!v4_own_subnet_broadcast(&a.spa));
+        let eth = EthernetFrame::new_unchecked(&a.frame[..]);
+        let reply = iface.inner.process_arp(now, &eth);
+        let spa = IpAddress::Ipv4(a.spa);
+        let sha = HardwareAddress::Ethernet(EthernetAddress(a.sha));
+        if reply.is_some() {
+            assert!(iface.inner.neighbor_cache.lookup(&spa, now) == NeighborAnswer::Found(sha), "dbg:d");
+        }
+        }
+    }
+    // DEBUG-END
 }
